@@ -5,7 +5,7 @@ HERE = os.path.dirname(os.path.dirname(os.path.abspath(__file__)))
 
 E1 = 'bounded exhaustive enumeration of input structures on the real library, lock-step dense reference model'
 E1H = E1 + '; second tier: explicit-state search over call histories whose last event belongs to the property'
-E2 = 'explicit-state breadth-first search over call histories on the real library, monitors in every state'
+E2 = 'explicit-state (stateless, depth-first with replay) search over all call histories up to a depth bound on the real library, monitors on every live object in every state'
 E3 = 'exhaustive exploration of every rank-decision sequence over the eps continuum (decision-point walk) x structure enumeration'
 E3H = E3 + '; second tier: explicit-state search over call histories whose last event belongs to the property'
 
